@@ -94,6 +94,15 @@ def check_and_export(plan, seed, wd, fam=REASM):
     else:
         r = vlib.tlc(fam["module"], workdir=wd, timeout=3000, workers=min(vlib.NCPU, 16), heap="24g", cfg_subst=fam["subst"](plan, seed))
     beh = list(dict.fromkeys(_printed(r, "BEH ")))
+    # signature-directed export: every TLC worker prints one behaviour per distinct set of code decisions in the last
+    # operation; keep a few per signature ("one implementation test per transition")
+    nsig, per = {}, plan.get("per_sig", 3)
+    for l in _printed(r, "SIG "):
+        k = l[l.rindex('"sig":'):]
+        if nsig.get(k, 0) < per:
+            nsig[k] = nsig.get(k, 0) + 1
+            beh.append(l)
+    r.signatures = len(nsig)
     cex = [json.loads(l) for l in _printed(r, "CEX ")]
     return r, beh, cex
 
@@ -127,12 +136,17 @@ def design_note_half_pages(wd):
 REASM["notes"] = [design_note_half_pages]
 
 
+TAIL = ',"tail":[["flushall"]]}'
+
+
 def replay(binp, beh_lines, units, wd, tag):
-    """model -> implementation.  Returns (stats, drift examples, trace path)."""
+    """model -> implementation.  Every behaviour is followed by a FlushAll that the model did not predict (run and
+    judged, not compared): Reasm!Judge then checks the quiescence clauses (every arrived byte delivered, stream
+    completed, no page in use) on each replayed behaviour.  Returns (stats, drift examples, trace path)."""
     os.makedirs(wd, exist_ok=True)
     bp = os.path.join(wd, "beh-%s.ndjson" % tag)
     with open(bp, "w") as f:
-        f.write("\n".join(beh_lines) + "\n")
+        f.write("\n".join(l[:-1] + TAIL for l in beh_lines) + "\n")
     tp = os.path.join(wd, "trace-%s.ndjson" % tag)
     dp = os.path.join(wd, "drift-%s.ndjson" % tag)
     p = vlib.run([binp, "-behaviours", bp, "-trace", tp, "-drift", dp, "-units", str(units), "-M", str(MODEL["M"]),
@@ -196,7 +210,8 @@ def plan_pipeline(plan, seed, binp, wd, want_self_test, fam=REASM):
     """One plan: TLC (check + export) -> replay on the real code -> comparison -> trace validation."""
     r, beh, cex = check_and_export(plan, seed, os.path.join(wd, "tlc"), fam)
     rec = {"plan": plan, "tlc_states": r.distinct, "tlc_generated": r.generated, "depth": r.depth, "tlc_wall_s": round(r.wall, 1),
-           "invariants": fam["invariants"], "violated": r.violated, "behaviours_exported": len(beh)}
+           "invariants": fam["invariants"], "violated": r.violated, "behaviours_exported": len(beh),
+           "distinct_last_operation_signatures": r.signatures}
     log("[impl] %s: %d states, %.1fs, violated=%s, %d behaviours exported" % (plan["name"], r.distinct, r.wall, r.violated, len(beh)))
     extra = []
     if r.violated:
